@@ -42,7 +42,7 @@ Init0 == [tid |-> "none", line |-> 0, maxsize |-> 0, pool |-> 0, door |-> 0, loa
           sent |-> <<>>, appl |-> <<>>, psent |-> <<>>, owes |-> <<>>, need |-> <<>>,
           gets |-> 0, hits |-> 0, lp |-> [k \in KeyDom |-> "none"], lrun |-> [k \in KeyDom |-> 0], lfail |-> <<>>, lcur |-> [k \in KeyDom |-> {}], lmine |-> <<>>, rv |-> <<>>, rdirty |-> <<>>, pl |-> <<>>,
           lastTick |-> -1, stalled |-> FALSE, heldAcc |-> 0, thresh |-> 28610, tick |-> 1024, nsnap |-> 0, nnotif |-> 0, nevents |-> 0, viol |-> {}, traces |-> 0, hangs |-> 0,
-          stuck |-> 0, skipped |-> 0, una |-> {}, qcap |-> 1024, batch |-> 128, sight |-> <<>>, tickSeq |-> 0, lc |-> <<>>, lrunv |-> [k \in KeyDom |-> {}]]
+          stuck |-> 0, skipped |-> 0, una |-> {}, qcap |-> 1024, batch |-> 128, sight |-> <<>>, tickSeq |-> 0, lc |-> <<>>, lrunv |-> [k \in KeyDom |-> {}], pend |-> {}]
 
 V(s, prop, kind) ==
   IF Cardinality({x \in s.viol : x[1] = prop /\ x[4] = kind}) >= 25 THEN s      \* (per property and kind: a flood of one kind must not hide another)
@@ -285,7 +285,9 @@ DoSinkOut(s, e) ==
      ELSE s2
 
 DoRemoveIn(s, e) ==
-  LET s1 == Owed(s, e.p) IN
+  LET s0 == Owed(s, e.p)
+      \* C20: evictions the maintenance goroutine has begun and not yet concluded (slot removed or entry handed over)
+      s1 == IF e.reason = "EVICTED" /\ e.p = "m" THEN [s0 EXCEPT !.pend = @ \cup {e.e}] ELSE s0 IN
   Vif(Vif(s1, e.reason = "EVICTED" /\ s.pool = 0 /\ s.press <= s.maxsize, "C06", "evicted_while_cost_within_maxsize"),
       \* C05: EVICTED is the reason of a removal under capacity pressure only
       e.reason = "EVICTED" /\ s.pool = 0 /\ s.press <= s.maxsize, "C05", "evicted_reason_while_cost_within_maxsize")
@@ -422,7 +424,11 @@ Upd(s0, e) ==
     [] e.ev = "postsend" -> DoPostSend(s, e)
     [] e.ev = "sinkout" -> DoSinkOut(s, e)
     [] e.ev = "removein" -> DoRemoveIn(s, e)
-    [] e.ev = "mapremoved" -> DoMapRemoved(s, e)
+    [] e.ev = "mapremoved" -> [DoMapRemoved(s, e) EXCEPT !.pend = @ \ {e.e}]
+    [] e.ev = "handoff" -> [s EXCEPT !.pend = @ \ {e.e}]
+    \* C20: the wake-up of the waiters comes after the evictions of the batch have happened and been notified
+    [] e.ev = "prewake" -> Vif(s, s.pool = 0 /\ ~s.closed /\ (s.pend # {} \/ Get(s.pn, e.p, <<0, "none">>)[1] # 0), "C20",
+                               "waiters_woken_before_the_evictions_of_the_batch_were_completed_and_notified")
     [] e.ev = "removedarm" -> DoRemovedArm(s, e)
     [] e.ev = "notify" -> DoNotify(s, e)
     [] e.ev = "adv" -> DoAdv(s, e)
